@@ -67,9 +67,12 @@ class Rig:
             "fold_in(1)": jax.jit(lambda k: jax.random.fold_in(k, 1)),
         }
         self.viable = list(self.derivations)
-        keys = [envs.make_key((i, 77)) for i in range(6)]
+        # instance diversity of this configuration: the "not the same instance again and again" oracle is only
+        # evaluated where a coincidence is practically impossible (>= 16 distinct instances among 32 keys and >= 6
+        # boundaries: chance of all-equal resets below 1e-6); tiny configurations (2x2 board of 2048) are skipped
+        keys = [envs.make_key((i, 77)) for i in range(32)]
         ds = {instance_digest(episodes.host(b.reset(k)[0])) for k in keys}
-        self.is_random = len(ds) >= 2
+        self.is_random = len(ds) >= 16
 
 
 def stacked_bundle(b):
@@ -187,7 +190,7 @@ def run_case(ctx, rig, key_words, plan=None, actions=None, fail=None):
         s, wts = ws, wts2
     if len(set(reset_keys)) != len(reset_keys):
         fail("keys.repeat", "two resets of one run used the same key", f"{reset_keys[:6]}")
-    if rig.is_random and boundaries >= 3 and len(set(digests)) == 1:
+    if rig.is_random and boundaries >= 6 and len(set(digests)) == 1:
         fail("instances.constant", "every automatic reset reproduced the same instance of a random generator",
              f"{boundaries} boundaries")
     ctx.count("boundaries", boundaries)
